@@ -16,14 +16,14 @@ def run_compare(ctx):
 
 
 def common(ctx, prop, kinds):
-    ctx.assumptions.append("statement language with byte offsets; nested functions/classes and the Visit glue of the three rules are covered by the correspondence only; "
+    ctx.assumptions.append("statement language with byte offsets (nested function declarations, arrow / getter expression statements, function-likes in for-in/of heads); classes and the Visit glue of the three rules are covered by the correspondence only; "
                            "the specification does not model function-declaration hoisting (a function body is entered only when its declaration is reached); "
                            "swc's cast_to_bool / ExprCtx (constant conditions) modelled for the condition spellings the generator uses")
     ctx.proof_stage(prop, ["CF/SoundnessCurrent.vo"])
     res = run_compare(ctx)
     mism = res["mismatches"]
     nontriv = res["programs"] - res["sizes"].get("1-2", 0)
-    ctx.correspondence("Coq model of control_flow/mod.rs (fixes A,B,D = current code) vs ControlFlow::analyze: info map entry by entry + the three rules' diagnostics; ghost analyzer vs map analyzer",
+    ctx.correspondence("Coq model of control_flow/mod.rs (fixes A,B,D,E = current code) vs ControlFlow::analyze: info map entry by entry + the three rules' diagnostics; ghost analyzer vs map analyzer",
                        res["programs"], nontriv, mism[:10],
                        "random well-formed programs (seeded; labels, break/continue, try/finally, do-while biased) wrapped as function/getter/switch + ALL programs up to a small size (exhaustive, seed independent); "
                        "non-trivial := more than 2 statements; %d info entries and %d diagnostics compared" % (res["info_entries"], res["diags"]),
